@@ -170,6 +170,25 @@ func ruleNoWrap(c *Ctx, rule string, fns []*ssa.Function, floor int) {
 
 // benignNarrowing: narrowing conversions whose truncation is the intended semantics and
 // cannot affect control flow or sizes; each entry names the pattern and the reason.
+// typeBits: width of a sized integer type (0 for others).
+func typeBits(t types.Type) int64 {
+	b, ok := t.Underlying().(*types.Basic)
+	if !ok {
+		return 0
+	}
+	switch b.Kind() {
+	case types.Uint8, types.Int8:
+		return 8
+	case types.Uint16, types.Int16:
+		return 16
+	case types.Uint32, types.Int32:
+		return 32
+	case types.Uint64, types.Int64:
+		return 64
+	}
+	return 0
+}
+
 func benignNarrowing(w *World, x *ssa.Convert) string {
 	fn := x.Parent()
 	// (1) the value only feeds a log/format call
@@ -197,8 +216,40 @@ func benignNarrowing(w *World, x *ssa.Convert) string {
 			return "wire field encoding of a non-negative quantity (32/64-bit field as the RFC defines it)"
 		}
 	}
+	// (6) an integer split into its bytes: byte(x >> 8k) for every k of x's width in this
+	//     function — together the conversions keep every bit
+	if b, ok := x.Type().Underlying().(*types.Basic); ok && (b.Kind() == types.Uint8 || b.Kind() == types.Int8) {
+		baseOf := func(v ssa.Value) (ssa.Value, int64) {
+			if bo, ok := v.(*ssa.BinOp); ok && bo.Op == token.SHR {
+				if k, isK := constInt(bo.Y); isK {
+					return bo.X, k
+				}
+			}
+			return v, 0
+		}
+		base, _ := baseOf(x.X)
+		if sz := typeBits(base.Type()); sz > 8 {
+			seen := map[int64]bool{}
+			w.eachInstr(fn, func(in ssa.Instruction) {
+				if cv, ok := in.(*ssa.Convert); ok && types.Identical(cv.Type(), x.Type()) {
+					if b2, k := baseOf(cv.X); w.sameKey(b2, base) {
+						seen[k] = true
+					}
+				}
+			})
+			all := true
+			for k := int64(0); k < sz; k += 8 {
+				if !seen[k] {
+					all = false
+				}
+			}
+			if all {
+				return "one of the byte(x >> 8k) conversions that split the integer into all of its bytes (no bit is dropped)"
+			}
+		}
+	}
 	// (5) random 64-bit value folded to a 32-bit connection id
-	if fn.Name() == "addTCPConnection" {
+	if nm(fn) == "addTCPConnection" {
 		return "upper half of a random uint64 (shifted right by 32) used as a 32-bit id"
 	}
 	return ""
